@@ -82,7 +82,30 @@ void harness(void)
   int polls0 = vp_poll_calls, waits0 = vp_waitpid_calls;
   vp_faults_left = VP_F;
 
-#if VP_MODE == 2
+#if VP_MODE == 3
+  /* ------------------------------------------------------------ wait, failure, wait again
+   * One failure (EINTR included) is injected into the first wait; whatever it returns, a
+   * later wait must still be able to collect the child: the status is not lost, the child
+   * does not stay a zombie, nothing is reaped twice. */
+  VP_ASSUME(!k.reaped && vp_c_dead_at[0] != VP_NEVER);
+  vp_faults_left = 1;
+  vp_eintr_on = true;
+  vp_hang_allowed = true;
+  int r1 = reproc_wait(p, pick_timeout());
+  vp_faults_left = 0;
+  VP_ASSERT(C01, r1 < 0 || (vp_c_state[0] == VP_C_REAPED && r1 == vp_status_decode(vp_child_status(0))),
+            "wait returns a status that is not the reaped child's");
+  VP_ASSERT(C14, (r1 >= 0) == (p->status >= 0), "handle state does not match what wait returned");
+  vp_hang_allowed = false; /* the child does exit: an infinite wait must come back */
+  int r2 = reproc_wait(p, REPROC_INFINITE);
+  VP_ASSERT(C01, r2 >= 0 && vp_c_state[0] == VP_C_REAPED && vp_c_reaps[0] == 1 &&
+                     r2 == vp_status_decode(vp_child_status(0)),
+            "after a failed wait the exit status is lost, the child stays a zombie or is reaped twice");
+  VP_ASSERT(C14, r2 >= 0 && p->status == r2, "after a failed wait a later wait does not reach the exited state");
+  VP_ASSERT(C05, vp_c_reaps[0] == 1, "child not reaped exactly once");
+  VP_COVER(r1 == -EINTR, "first wait interrupted");
+  VP_COVER(r1 >= 0, "first wait succeeds");
+#elif VP_MODE == 2
   /* ------------------------------------------------------------------ wait */
   int tmo = pick_timeout();
   bool hangs = false;
@@ -122,7 +145,8 @@ void harness(void)
             "stop returns a status although the child has not been reaped exactly once");
   VP_ASSERT(C01, r < 0 || was_reaped || r == vp_status_decode(vp_child_status(0)),
             "status returned by stop is not the child's exit code / 128+signal");
-  VP_ASSERT(C01, !was_reaped || r == pre_r, "stop after a successful wait returns a different status");
+  VP_ASSERT(C01, !was_reaped || r == pre_r || r == REPROC_EINVAL,
+            "stop after a successful wait returns a different status");
   VP_ASSERT(C01, !was_reaped || (vp_poll_calls == polls0 && vp_waitpid_calls == waits0),
             "stop after a successful wait touches the OS again");
   VP_ASSERT(C06, !was_reaped || vp_nsigs == nsig0, "a signal is sent after the child has been reaped");
